@@ -1,6 +1,7 @@
 package main
 
 import (
+	"strings"
 	"fmt"
 	"math/big"
 	"os"
@@ -81,6 +82,9 @@ func c10MapZ(edge bool, tz string, z string) *c10Mapping {
 		m.bases[5] = time.Unix(0, influxql.MaxTime).UTC()
 	}
 	if tz != "" {
+		// "<zone>@utc0": 8-hour windows around a UTC midnight instead (a bound on a UTC day boundary in a zone that is not UTC)
+		utc0 := strings.HasSuffix(tz, "@utc0")
+		tz = strings.TrimSuffix(tz, "@utc0")
 		loc, err := time.LoadLocation(tz)
 		if err != nil {
 			panic("c10: " + err.Error())
@@ -89,6 +93,11 @@ func c10MapZ(edge bool, tz string, z string) *c10Mapping {
 		m.bases[1] = time.Date(2021, 11, 7, 4, 0, 0, 0, time.UTC)
 		m.bases[2] = time.Date(2021, 11, 7, 5, 0, 0, 0, time.UTC)
 		m.bases[3] = time.Date(2021, 11, 7, 6, 0, 0, 0, time.UTC)
+		if utc0 {
+			m.bases[1] = time.Date(2021, 11, 6, 16, 0, 0, 0, time.UTC)
+			m.bases[2] = time.Date(2021, 11, 7, 0, 0, 0, 0, time.UTC)
+			m.bases[3] = time.Date(2021, 11, 7, 8, 0, 0, 0, time.UTC)
+		}
 	}
 	m.now = m.bases[3]
 	return m
